@@ -499,13 +499,15 @@ class Interp:
     # -- driver ---------------------------------------------------------------------
     def run(self, tree, param_vals):
         env = {}
+        cons0, tags0 = [], set()
         for p, v in zip(tree["params"], param_vals):
             if p["k"] == "P.Binding":
                 env[p["name"]] = v
             else:
-                raise Uninterpretable("parameter pattern", p["line"])
+                # a destructuring parameter (`(allowed, values): (bool, &[K])`) is a pattern like any other
+                env, cons0, tags0 = self.match_pat(p, v, env, cons0, tags0)
         body = tree["body"]
-        for c, v, t in self.eval(body, env, [], set()):
+        for c, v, t in self.eval(body, env, cons0, tags0):
             if v.kind != "unit" or True:
                 self.returns.append((c, v, t, body.get("line")))
         return self.returns
